@@ -129,6 +129,9 @@ func buildOverlay(spec overlaySpec) (map[string][]byte, error) {
 		}
 	}
 	for k, lit := range spec.Scale {
+		if strings.HasPrefix(k, "value:") {
+			continue
+		}
 		parts := strings.SplitN(k, ":", 2)
 		file := filepath.Join(repoDir, parts[0])
 		b, err := scaleConst(file, parts[1], lit)
@@ -158,6 +161,34 @@ func buildOverlay(spec overlaySpec) (map[string][]byte, error) {
 					}
 				}
 			}
+		}
+	}
+	// "value:<N>" scale keys: every constant expression equal to N in the repository's own files becomes the given
+	// literal (for thresholds that are written inline, e.g. the 256 MiB floor of the merge-ratio check)
+	for k, lit := range spec.Scale {
+		if !strings.HasPrefix(k, "value:") {
+			continue
+		}
+		orig, err := strconv.ParseInt(strings.TrimPrefix(k, "value:"), 0, 64)
+		if err != nil {
+			return nil, err
+		}
+		total := 0
+		for _, dir := range []string{".", "datafile", "index", "fio", "utils", "datatype"} {
+			files, _ := filepath.Glob(filepath.Join(repoDir, dir, "*.go"))
+			for _, f := range files {
+				if strings.HasSuffix(f, "_test.go") || strings.HasPrefix(filepath.Base(f), "zz_verif_") {
+					continue
+				}
+				b, n, err := coScale(f, ov[f], orig, lit, false)
+				if err == nil && n > 0 {
+					ov[f] = b
+					total += n
+				}
+			}
+		}
+		if total == 0 {
+			return nil, fmt.Errorf("no constant expression equal to %d found (scaled overlay impossible)", orig)
 		}
 	}
 	for rel, b := range spec.TestFile {
